@@ -5,7 +5,7 @@ namespace LlgoVerif.Gen.C12
 open LlgoVerif.Init
 
 /-- number of facts about patched std packages at the head of `facts` -/
-def nStd : Nat := 9
+def nStd : Nat := 2
 
 def facts : List InitFact := [
   -- sync/atomic.init (replacement, chained=True)
@@ -16,34 +16,6 @@ def facts : List InitFact := [
   { id := 0, hasPatchFn := true, chained := true,
     toks := [.loadGuard, .brGuard .body .ret, .storeGuard, .brRet],
     imports := [], goList := [] },
-  -- internal/abi.init (shape only, chained=True)
-  { id := 1, hasPatchFn := false, chained := true,
-    toks := [.loadGuard, .brGuard .ret .body, .storeGuard, .callHasPatch, .callInit 0, .brRet],
-    imports := [0], goList := [0] },
-  -- internal/abi.init$hasPatch (shape only, chained=True)
-  { id := 1, hasPatchFn := true, chained := true,
-    toks := [.loadGuard, .brGuard .body .ret, .storeGuard, .callInit 0, .act, .brRet],
-    imports := [0], goList := [0] },
-  -- internal/runtime/maps.init (shape only, chained=True)
-  { id := 1, hasPatchFn := false, chained := true,
-    toks := [.loadGuard, .brGuard .ret .body, .storeGuard, .callHasPatch, .callInit 0, .brRet],
-    imports := [0], goList := [0] },
-  -- internal/runtime/maps.init$hasPatch (shape only, chained=True)
-  { id := 7, hasPatchFn := true, chained := true,
-    toks := [.loadGuard, .brGuard .body .ret, .storeGuard, .callInit 0, .callInit 2, .callInit 6, .callInit 5, .callInit 4, .callInit 1, .callInit 3, .brRet],
-    imports := [0, 2, 6, 5, 4, 1, 3], goList := [0, 1, 2, 3, 4, 5, 6] },
-  -- internal/runtime/sys.init (shape only, chained=True)
-  { id := 0, hasPatchFn := false, chained := true,
-    toks := [.loadGuard, .brGuard .ret .body, .storeGuard, .callHasPatch, .brRet],
-    imports := [], goList := [] },
-  -- internal/runtime/sys.init$hasPatch (shape only, chained=True)
-  { id := 2, hasPatchFn := true, chained := true,
-    toks := [.loadGuard, .brGuard .body .ret, .storeGuard, .callInit 0, .callInit 1, .act, .brRet],
-    imports := [0, 1], goList := [0, 1] },
-  -- runtime.init (shape only, chained=False)
-  { id := 6, hasPatchFn := false, chained := false,
-    toks := [.loadGuard, .brGuard .ret .body, .storeGuard, .callInit 1, .callInit 0, .callInit 2, .callInit 5, .callInit 3, .callInit 4, .act, .brRet],
-    imports := [1, 0, 2, 5, 3, 4], goList := [0, 1, 2, 3, 4, 5] },
   -- c12f/t0/tr.init
   { id := 2, hasPatchFn := false, chained := false,
     toks := [.loadGuard, .brGuard .ret .body, .storeGuard, .act, .brRet],
@@ -107,88 +79,12 @@ def facts : List InitFact := [
   -- c12f/t1.init
   { id := 7, hasPatchFn := false, chained := false,
     toks := [.loadGuard, .brGuard .ret .body, .storeGuard, .callInit 2, .callInit 6, .act, .brRet],
-    imports := [2, 6], goList := [2, 6] },
-  -- c12f/t2/tr.init
-  { id := 1, hasPatchFn := false, chained := false,
-    toks := [.loadGuard, .brGuard .ret .body, .storeGuard, .act, .brRet],
-    imports := [], goList := [] },
-  -- c12f/t2/omega.init
-  { id := 2, hasPatchFn := false, chained := false,
-    toks := [.loadGuard, .brGuard .ret .body, .storeGuard, .callInit 0, .callInit 1, .act, .brRet],
-    imports := [0, 1], goList := [0, 1] },
-  -- c12f/t2/deep/mid.init
-  { id := 3, hasPatchFn := false, chained := false,
-    toks := [.loadGuard, .brGuard .ret .body, .storeGuard, .callInit 1, .callInit 2, .act, .brRet],
-    imports := [1, 2], goList := [1, 2] },
-  -- c12f/t2.init
-  { id := 7, hasPatchFn := false, chained := false,
-    toks := [.loadGuard, .brGuard .ret .body, .storeGuard, .callInit 1, .callInit 3, .callInit 0, .act, .brRet],
-    imports := [1, 3, 0], goList := [0, 1, 3] },
-  -- c12f/t3/tr.init
-  { id := 1, hasPatchFn := false, chained := false,
-    toks := [.loadGuard, .brGuard .ret .body, .storeGuard, .act, .brRet],
-    imports := [], goList := [] },
-  -- c12f/t3.init
-  { id := 2, hasPatchFn := false, chained := false,
-    toks := [.loadGuard, .brGuard .ret .body, .storeGuard, .callInit 0, .callInit 1, .act, .brRet],
-    imports := [0, 1], goList := [0, 1] },
-  -- c12f/t4/tr.init
-  { id := 1, hasPatchFn := false, chained := false,
-    toks := [.loadGuard, .brGuard .ret .body, .storeGuard, .act, .brRet],
-    imports := [], goList := [] },
-  -- c12f/t4/deep/omega.init (work-free package)
-  { id := 2, hasPatchFn := false, chained := false,
-    toks := [.loadGuard, .brGuard .ret .body, .storeGuard, .callInit 0, .brRet],
-    imports := [0], goList := [0] },
-  -- c12f/t4/kilo.init
-  { id := 3, hasPatchFn := false, chained := false,
-    toks := [.loadGuard, .brGuard .ret .body, .storeGuard, .callInit 2, .callInit 1, .act, .brRet],
-    imports := [2, 1], goList := [1, 2] },
-  -- c12f/t4/sierra.init
-  { id := 4, hasPatchFn := false, chained := false,
-    toks := [.loadGuard, .brGuard .ret .body, .storeGuard, .callInit 3, .callInit 1, .act, .brRet],
-    imports := [3, 1], goList := [1, 3] },
-  -- c12f/t4.init
-  { id := 6, hasPatchFn := false, chained := false,
-    toks := [.loadGuard, .brGuard .ret .body, .storeGuard, .callInit 1, .callInit 2, .callInit 3, .callInit 4, .act, .brRet],
-    imports := [1, 2, 3, 4], goList := [1, 2, 3, 4] },
-  -- c12f/t5/tr.init
-  { id := 2, hasPatchFn := false, chained := false,
-    toks := [.loadGuard, .brGuard .ret .body, .storeGuard, .act, .brRet],
-    imports := [], goList := [] },
-  -- c12f/t5/kilo.init
-  { id := 3, hasPatchFn := false, chained := false,
-    toks := [.loadGuard, .brGuard .ret .body, .storeGuard, .callInit 1, .callInit 2, .act, .brRet],
-    imports := [1, 2], goList := [1, 2] },
-  -- c12f/t5/deep/yank.init
-  { id := 4, hasPatchFn := false, chained := false,
-    toks := [.loadGuard, .brGuard .ret .body, .storeGuard, .callInit 0, .callInit 2, .act, .brRet],
-    imports := [0, 2], goList := [0, 2] },
-  -- c12f/t5/deep/sierra.init
-  { id := 5, hasPatchFn := false, chained := false,
-    toks := [.loadGuard, .brGuard .ret .body, .storeGuard, .callInit 2, .callInit 0, .callInit 1, .act, .brRet],
-    imports := [2, 0, 1], goList := [0, 1, 2] },
-  -- c12f/t5/beta.init
-  { id := 6, hasPatchFn := false, chained := false,
-    toks := [.loadGuard, .brGuard .ret .body, .storeGuard, .callInit 5, .callInit 4, .callInit 2, .act, .brRet],
-    imports := [5, 4, 2], goList := [2, 4, 5] },
-  -- c12f/t5.init
-  { id := 7, hasPatchFn := false, chained := false,
-    toks := [.loadGuard, .brGuard .ret .body, .storeGuard, .callInit 6, .callInit 3, .callInit 5, .callInit 2, .act, .brRet],
-    imports := [6, 3, 5, 2], goList := [2, 3, 5, 6] }]
+    imports := [2, 6], goList := [2, 6] }]
 
 def entries : List EntryFact := [
   -- c12f/t0
   { calls := [.rtInit, .runtimeInit, .mainInit, .mainMain] },
   -- c12f/t1
-  { calls := [.rtInit, .runtimeInit, .mainInit, .mainMain] },
-  -- c12f/t2
-  { calls := [.rtInit, .runtimeInit, .mainInit, .mainMain] },
-  -- c12f/t3
-  { calls := [.rtInit, .runtimeInit, .mainInit, .mainMain] },
-  -- c12f/t4
-  { calls := [.rtInit, .runtimeInit, .mainInit, .mainMain] },
-  -- c12f/t5
   { calls := [.rtInit, .runtimeInit, .mainInit, .mainMain] }]
 
 end LlgoVerif.Gen.C12
